@@ -3,6 +3,7 @@
 from mc.drivers.bpm import B, I, Q, Scenario
 
 SUM_BQ = [[B], [Q]]  # Either([B],[Q])
+VC = ["V", 0, "C"]
 
 SCENARIOS = {
     # D - plain dataflow: nesting with Ext wires, order edges, tuples, linear values
@@ -21,5 +22,18 @@ SCENARIOS = {
     "M1": Scenario(
         "M1", "module", [], ops=("Not", "Noop"), loads=("TRUE",), containers=("nested",), max_depth=3, orders=True,
         funcs=(("f", [B], [B]), ("main", [B, Q], None)), extra={"fn_ops": ("call", "loadfn", "callind")},
+    ),
+    # M2 - polymorphic and row-polymorphic functions: calls with instantiations (arity may change)
+    "M2": Scenario(
+        "M2", "module", [], ops=("Noop", "MakeTuple"), loads=(), containers=("nested",), max_depth=3,
+        funcs=(("pid", [VC], [VC], [["TP", "C"]]), ("main", [B, I], None)),
+        extra={
+            "fn_ops": ("call", "loadfn", "callind"),
+            "inst_types": [B, I],
+            "decls": (
+                ("rowp", ["Poly", [["LP", ["TP", "A"]]], ["G", [["R", 0, "A"]], [B, ["R", 0, "A"]], []]],
+                 [([["SeqA", []]], [], [B]), ([["SeqA", [["TA", B], ["TA", I]]]], [B, I], [B, B, I])]),
+            ),
+        },
     ),
 }
